@@ -91,12 +91,12 @@ func (pc *PersistedClock) read() error {
 
 	var value uint64
 	n, err := fmt.Sscanf(string(content), "%d", &value)
-	if err != nil {
-		return err
-	}
-
-	if n != 1 {
-		return fmt.Errorf("could not read the clock")
+	if err != nil || n != 1 {
+		// A clock file holding no value (for instance left empty by a crash between the
+		// truncation and the write of Write()) is handled like a missing one, so that
+		// the clock gets re-created and witnessed again from the stored entities instead
+		// of making the repository impossible to open.
+		return ErrClockNotExist
 	}
 
 	pc.MemClock = NewMemClockWithTime(value)
